@@ -60,11 +60,11 @@ def _not_owned(w):
     return None  # runs that abort belong to the checks that own the scenario families
 
 
-def run_whole_runs(res, pid, tier, seed, acceptors, rule):
-    run_r(pid, tier, seed, whole_run_scenarios(tier), acceptors, 1, _not_owned, ["whole_run_rounds_with_fills"], rule,
+def run_whole_runs(res, pid, tier, seed, acceptors, rule, on_exc=None):
+    run_r(pid, tier, seed, whole_run_scenarios(tier), acceptors, 1, on_exc or _not_owned, ["whole_run_rounds_with_fills"], rule,
           res=res, label="whole_runs", split=0)
     return res
 
 
-def replay_whole_runs(payload, acceptors):
-    return replay_r(whole_run_scenarios("thorough"), acceptors, _not_owned, payload)
+def replay_whole_runs(payload, acceptors, on_exc=None):
+    return replay_r(whole_run_scenarios("thorough"), acceptors, on_exc or _not_owned, payload)
